@@ -204,7 +204,8 @@ RR(P, l, ns, n) == IF n = 0 THEN <<>>
                    ELSE Append(RR(P, l, ns, n - 1), P[n])
 RefReassign(P, s, e) == LET l == RefFind(P, s) IN IF l = 0 THEN P ELSE RR(P, l, NewSt(s, e), Len(P))
 
-\* subs({a: b}) for atoms a # b : rename everywhere, left hand sides included
+\* subs({a: b}) for atoms a # b : rename everywhere, left hand sides included -- whatever form the keys have
+\* (the documentation allows str, symbol and Expr keys; the driver replays every emitted map in all three forms)
 RenF(x, a, b) == Mk(LAMBDA c : IF c = a THEN 0 ELSE IF c = b THEN x[b] + x[a] ELSE x[c])
 RECURSIVE RefSubsN(_, _, _, _)
 RefSubsN(P, a, b, n) == IF n = 0 THEN <<>>
